@@ -66,6 +66,11 @@ theorem post_sessions_have_live_creds (e : Entry) (ct cid k : Nat) (s : Sess)
     rw [he]
     exact ⟨(plugin_keeps_credentials ct cid e _).mpr ((credIds_iff e _).mp hc), hx⟩
 
+/-- The trim at the start of a write does not touch the credentials. -/
+theorem hasCred_applyMod_trim (t cid : Nat) (e : Entry) (md : Mod) (c : Nat) :
+    HasCred (applyMod cid (trimEntry t e) md) c ↔ HasCred (applyMod cid e md) c := by
+  cases md <;> simp [HasCred, applyMod, trimEntry]
+
 /-- **The property, first half.** Any local write (any modlist) after which credential `c` is no
 longer on the account leaves every login session issued with `c` revoked — in the very state
 that write commits. -/
@@ -78,12 +83,12 @@ theorem removed_credential_revokes_in_same_change (e : Entry) (md : Mod) (ct cid
   | expiresAt x =>
     have hl : Live s := by simp [Live, hs, isRevoked]
     have := (post_sessions_have_live_creds _ ct cid k s h hl).1
-    rw [plugin_keeps_credentials, hc] at this
+    rw [plugin_keeps_credentials, hc, hasCred_applyMod_trim] at this
     exact absurd this hgone
   | neverExpires =>
     have hl : Live s := by simp [Live, hs, isRevoked]
     have := (post_sessions_have_live_creds _ ct cid k s h hl).1
-    rw [plugin_keeps_credentials, hc] at this
+    rw [plugin_keeps_credentials, hc, hasCred_applyMod_trim] at this
     exact absurd this hgone
 
 /-- **Replace = remove.** A committed change of the primary credential (password change, TOTP
@@ -137,16 +142,54 @@ theorem uatAt_applyMod {e : Entry} {k : Nat} {s : Sess} (cid : Nat) (md : Mod) (
   | revokeO2 _ => exact ⟨s, ⟨m, hm, hmem⟩, Or.inl rfl⟩
   | touch => exact ⟨s, ⟨m, hm, hmem⟩, Or.inl rfl⟩
 
-/-- No write drops or re-labels a recorded login session: it is still on the entry afterwards,
-with the same issuing credential, either unchanged or revoked by this very write.  (So "every
-session issued with that credential" in the theorem above really is every one.) -/
+/-- Membership in the trimmed map comes from the map. -/
+theorem mem_sessTrimAll {t : Nat} {m : SMap} {x : Nat × Sess} (h : x ∈ sessTrimAll t m) : x ∈ m := by
+  unfold sessTrimAll forceTrim at h
+  split at h
+  · exact (List.mem_filter.mp (List.mem_filter.mp h).1).1
+  · exact (List.mem_filter.mp h).1
+
+theorem uatAt_trim_inv {t : Nat} {e : Entry} {k : Nat} {s : Sess} (h : UatAt (trimEntry t e) k s) :
+    UatAt e k s := by
+  obtain ⟨m, hm, hmem⟩ := h
+  cases hu : e.uats with
+  | none => simp [trimEntry, hu] at hm
+  | some m0 =>
+    simp only [trimEntry, hu, Option.map_some, Option.some.injEq] at hm
+    subst hm
+    exact ⟨m0, hu, mem_sessTrimAll hmem⟩
+
+/-- The trim drops a login session only if it is a revocation older than the trim id or the
+account holds more than `SESSION_MAXIMUM` sessions. -/
+theorem trim_keeps_session (t : Nat) (e : Entry) (k : Nat) (s : Sess) (m : SMap)
+    (hm : e.uats = some m) (hmem : (k, s) ∈ m) (hB : m.length ≤ sessionMaximum)
+    (hfresh : ∀ c, s.state = .revokedAt c → ¬ c < t) : UatAt (trimEntry t e) k s := by
+  refine ⟨sessTrimAll t m, by simp [trimEntry, hm], ?_⟩
+  have hf : (k, s) ∈ trimRevoked sessTrim t m := by
+    unfold trimRevoked
+    refine List.mem_filter.mpr ⟨hmem, ?_⟩
+    unfold keepSess sessTrim
+    cases hs : s.state with
+    | revokedAt c => simpa using hfresh c hs
+    | expiresAt _ => rfl
+    | neverExpires => rfl
+  unfold sessTrimAll
+  rw [forceTrim_id]
+  · exact hf
+  · exact Nat.le_trans (List.length_filter_le _ _) hB
+
+/-- No write re-labels a recorded login session, and the modlist and the plugin never drop one:
+a session that survives the write's trim is on the entry afterwards, with the same issuing
+credential, either unchanged or revoked by this very write.  (So "every session issued with that
+credential" in the theorem above really is every one that is still on record.) -/
 theorem write_keeps_every_session (e : Entry) (md : Mod) (ct cid k : Nat) (s : Sess)
-    (h : UatAt e k s) :
+    (h : UatAt (trimEntry (trimCidOf cid) e) k s) :
     ∃ s', UatAt (step e (.write md ct cid)) k s' ∧ credOf s' = credOf s ∧
       (s' = s ∨ s' = revoke cid s) := by
   obtain ⟨s1, ⟨m1, hm1, hmem1⟩, h1⟩ := uatAt_applyMod cid md h
-  refine ⟨uatPost (credIds (applyMod cid e md)) ct cid s1, ⟨_, ?_, mem_mapVals_of_mem hmem1⟩, ?_, ?_⟩
-  · simp [step, plugin_uats, hm1]
+  refine ⟨uatPost (credIds (applyMod cid (trimEntry (trimCidOf cid) e) md)) ct cid s1,
+    ⟨_, ?_, mem_mapVals_of_mem hmem1⟩, ?_, ?_⟩
+  · simp [step, stepCore, plugin_uats, hm1]
   · unfold credOf
     rw [uatPost_payload]
     rcases h1 with rfl | rfl
@@ -359,183 +402,268 @@ theorem orphan_session_dies_without_refresh (e : Entry) (sid p t0 ct : Nat)
   apply orphan_oauth2_unusable_after_grace e sid p _ ct _ horphan hapi
   exact Nat.le_trans (Nat.add_le_add_right (Nat.div_mul_le_self t0 1000000000) _) hct
 
-/-! ## 3. Histories: revoked stays revoked -/
+/-! ## 3. Histories: what is revoked stays revoked (until the trim drops it), never live again -/
 
-theorem lookup_uats_applyMod {e : Entry} {m : SMap} {k c : Nat} (cid : Nat) (md : Mod)
-    (hm : e.uats = some m) (h : RevAt m k c) :
-    ∃ m', (applyMod cid e md).uats = some m' ∧ RevAt m' k c := by
-  obtain ⟨s, hs, hr⟩ := h
+/-- Everything recorded under login-session id `k` is revoked (vacuously so once the trim has
+dropped the id: "revoked or gone"). -/
+def DeadUat (e : Entry) (k : Nat) : Prop := ∀ s, UatAt e k s → ∃ c, s.state = .revokedAt c
+
+/-- The same for an OAuth2 session id. -/
+def DeadO2 (e : Entry) (k : Nat) : Prop := ∀ s, (k, s) ∈ e.o2s → ∃ c, s.state = .revokedAt c
+
+theorem not_mem_of_lookup_none {m : SMap} {k : Nat} (h : lookup m k = none) (s : Sess) : (k, s) ∉ m := by
+  intro hmem
+  induction m with
+  | nil => cases hmem
+  | cons hd tl ih =>
+    obtain ⟨k', v⟩ := hd
+    by_cases hk : k = k'
+    · simp [lookup, hk] at h
+    · simp only [lookup, hk, if_false] at h
+      rcases List.mem_cons.mp hmem with h1 | h1
+      · cases h1; exact hk rfl
+      · exact ih h h1
+
+/-- Where a value under `k` comes from after the modlist: from a value under `k` before it (same
+payload; unchanged or revoked), or from a `record k` of this modlist. -/
+theorem uatAt_applyMod_inv {e : Entry} {k : Nat} {s1 : Sess} (cid : Nat) (md : Mod)
+    (h : UatAt (applyMod cid e md) k s1) :
+    (∃ s0, UatAt e k s0 ∧ s1.payload = s0.payload ∧ (s1 = s0 ∨ s1 = revoke cid s0)) ∨
+    (∃ c x i, md = .record k c x i ∧ ∀ s0, ¬ UatAt e k s0) := by
+  obtain ⟨m1, hm1, hmem⟩ := h
   cases md with
   | record s2 cred exp issued =>
-    refine ⟨_, rfl, s, ?_, hr⟩
-    simp only [hm, Option.getD_some]
-    rw [lookup_insertVacant, hs]
+    simp only [applyMod, Option.some.injEq] at hm1
+    subst hm1
+    unfold insertVacant at hmem
+    cases hl : lookup (e.uats.getD []) s2 with
+    | some v =>
+      rw [hl] at hmem
+      cases hu : e.uats with
+      | none => simp [hu] at hmem
+      | some m => simp only [hu, Option.getD_some] at hmem; exact Or.inl ⟨s1, ⟨m, hu, hmem⟩, rfl, Or.inl rfl⟩
+    | none =>
+      rw [hl] at hmem
+      rcases List.mem_append.mp hmem with h1 | h1
+      · cases hu : e.uats with
+        | none => simp [hu] at h1
+        | some m => simp only [hu, Option.getD_some] at h1; exact Or.inl ⟨s1, ⟨m, hu, h1⟩, rfl, Or.inl rfl⟩
+      · simp only [List.mem_singleton, Prod.mk.injEq] at h1
+        obtain ⟨rfl, rfl⟩ := h1
+        refine Or.inr ⟨cred, exp, issued, rfl, ?_⟩
+        rintro s0 ⟨m, hu, hm0⟩
+        simp only [hu, Option.getD_some] at hl
+        exact not_mem_of_lookup_none hl s0 hm0
   | revoke s2 =>
-    refine ⟨revokeKey cid s2 m, by simp [applyMod, hm], s, ?_, hr⟩
-    rw [lookup_revokeKey, hs]
-    simp [revoke_of_revoked hr]
+    cases hu : e.uats with
+    | none => simp [applyMod, hu] at hm1
+    | some m =>
+      simp only [applyMod, hu, Option.map_some, Option.some.injEq] at hm1
+      subst hm1
+      rw [revokeKey_eq] at hmem
+      obtain ⟨⟨a, s0⟩, hm0, he⟩ := List.mem_map.mp hmem
+      simp only [Prod.mk.injEq] at he
+      obtain ⟨rfl, rfl⟩ := he
+      refine Or.inl ⟨s0, ⟨m, hu, hm0⟩, ?_, ?_⟩
+      · split
+        · exact revoke_payload cid s0
+        · rfl
+      · split
+        · right; rfl
+        · left; rfl
   | purgeUats =>
-    refine ⟨revokeAll cid m, by simp [applyMod, hm], s, ?_, hr⟩
-    rw [lookup_revokeAll, hs]
-    simp [revoke_of_revoked hr]
-  | setPrimary _ => exact ⟨m, hm, s, hs, hr⟩
-  | updatePrimary _ => exact ⟨m, hm, s, hs, hr⟩
-  | addPasskey _ => exact ⟨m, hm, s, hs, hr⟩
-  | delPasskey _ => exact ⟨m, hm, s, hs, hr⟩
-  | addAttested _ => exact ⟨m, hm, s, hs, hr⟩
-  | delAttested _ => exact ⟨m, hm, s, hs, hr⟩
-  | setOauth2Cred _ => exact ⟨m, hm, s, hs, hr⟩
-  | grant _ _ _ _ => exact ⟨m, hm, s, hs, hr⟩
-  | revokeO2 _ => exact ⟨m, hm, s, hs, hr⟩
-  | touch => exact ⟨m, hm, s, hs, hr⟩
+    cases hu : e.uats with
+    | none => simp [applyMod, hu] at hm1
+    | some m =>
+      simp only [applyMod, hu, Option.map_some, Option.some.injEq] at hm1
+      subst hm1
+      unfold revokeAll at hmem
+      obtain ⟨⟨a, s0⟩, hm0, he⟩ := List.mem_map.mp hmem
+      simp only [Prod.mk.injEq] at he
+      obtain ⟨rfl, rfl⟩ := he
+      exact Or.inl ⟨s0, ⟨m, hu, hm0⟩, revoke_payload cid s0, Or.inr rfl⟩
+  | setPrimary _ => exact Or.inl ⟨s1, ⟨m1, hm1, hmem⟩, rfl, Or.inl rfl⟩
+  | updatePrimary _ => exact Or.inl ⟨s1, ⟨m1, hm1, hmem⟩, rfl, Or.inl rfl⟩
+  | addPasskey _ => exact Or.inl ⟨s1, ⟨m1, hm1, hmem⟩, rfl, Or.inl rfl⟩
+  | delPasskey _ => exact Or.inl ⟨s1, ⟨m1, hm1, hmem⟩, rfl, Or.inl rfl⟩
+  | addAttested _ => exact Or.inl ⟨s1, ⟨m1, hm1, hmem⟩, rfl, Or.inl rfl⟩
+  | delAttested _ => exact Or.inl ⟨s1, ⟨m1, hm1, hmem⟩, rfl, Or.inl rfl⟩
+  | setOauth2Cred _ => exact Or.inl ⟨s1, ⟨m1, hm1, hmem⟩, rfl, Or.inl rfl⟩
+  | grant _ _ _ _ => exact Or.inl ⟨s1, ⟨m1, hm1, hmem⟩, rfl, Or.inl rfl⟩
+  | revokeO2 _ => exact Or.inl ⟨s1, ⟨m1, hm1, hmem⟩, rfl, Or.inl rfl⟩
+  | touch => exact Or.inl ⟨s1, ⟨m1, hm1, hmem⟩, rfl, Or.inl rfl⟩
 
-/-- A revoked login session is still there, revoked with the same change id, after any local
-write — a replayed session record, a fresh login, a credential re-added under the old id
-included. -/
-theorem revoked_stays_revoked_write (e : Entry) (md : Mod) (ct cid k c : Nat) (m : SMap)
-    (hm : e.uats = some m) (h : RevAt m k c) :
-    ∃ m', (step e (.write md ct cid)).uats = some m' ∧ RevAt m' k c := by
-  obtain ⟨m1, hm1, s, hs, hr⟩ := lookup_uats_applyMod cid md hm h
-  refine ⟨_, by simp [step, plugin_uats, hm1]; rfl, s, ?_, hr⟩
-  rw [lookup_mapVals, hs]
-  simp [uatPost_of_revoked hr]
+/-- Provenance through a whole write (trim, modlist, plugin): a value under `k` afterwards was
+under `k` before (same issuing credential; unchanged, or revoked now), or `k` was not on record
+after the trim and this write records it. -/
+theorem uatAt_write_inv (e : Entry) (md : Mod) (ct cid k : Nat) (s' : Sess)
+    (h : UatAt (step e (.write md ct cid)) k s') :
+    (∃ s0, UatAt e k s0 ∧ credOf s' = credOf s0 ∧ (s' = s0 ∨ ∃ c, s'.state = .revokedAt c)) ∨
+    (∃ c x i, md = .record k c x i ∧ ∀ s0, ¬ UatAt (trimEntry (trimCidOf cid) e) k s0) := by
+  obtain ⟨m, hm, hmem⟩ := h
+  simp only [step, stepCore, plugin_uats] at hm
+  cases hu : (applyMod cid (trimEntry (trimCidOf cid) e) md).uats with
+  | none => rw [hu] at hm; cases hm
+  | some m1 =>
+    rw [hu] at hm
+    simp only [Option.map_some, Option.some.injEq] at hm
+    subst hm
+    obtain ⟨s1, hm1, rfl⟩ := mem_mapVals hmem
+    rcases uatAt_applyMod_inv cid md ⟨m1, hu, hm1⟩ with ⟨s0, h0, hp, hs⟩ | hrec
+    · refine Or.inl ⟨s0, uatAt_trim_inv h0, ?_, ?_⟩
+      · unfold credOf; rw [uatPost_payload, hp]
+      · rcases uatPost_cases (credIds (applyMod cid (trimEntry (trimCidOf cid) e) md)) ct cid s1 with hc | hc
+        · rw [hc]
+          rcases hs with rfl | rfl
+          · left; rfl
+          · right; exact revoke_revoked cid s0
+        · rw [hc]; right; exact revoke_revoked cid s1
+    · exact Or.inr hrec
 
-/-- The same for a revoked OAuth2 session (a refresh re-inserting the session id cannot
-un-revoke it: `RevokedAt` is the greatest state). -/
-theorem revoked_oauth2_stays_revoked_write (e : Entry) (md : Mod) (ct cid k c : Nat)
-    (h : RevAt e.o2s k c) : RevAt (step e (.write md ct cid)).o2s k c := by
-  obtain ⟨s, hs, hr⟩ := h
-  have h1 : RevAt (applyMod cid e md).o2s k c := by
-    cases md with
-    | grant o parent exp issued =>
-      refine ⟨s, ?_, hr⟩
-      simp only [applyMod]
-      rw [lookup_insertO2, hs]
-      have : o2InsertReplaces (SState.cmp (stateOf exp) s.state) = false := by
-        rw [hr]; cases exp <;> simp [stateOf, SState.cmp, o2InsertReplaces]
-      simp [this]
-    | revokeO2 o =>
-      refine ⟨s, ?_, hr⟩
-      simp only [applyMod]
-      rw [lookup_revokeKey, hs]
-      simp [revoke_of_revoked hr]
-    | record _ _ _ _ => exact ⟨s, hs, hr⟩
-    | revoke _ => exact ⟨s, hs, hr⟩
-    | purgeUats => exact ⟨s, hs, hr⟩
-    | setPrimary _ => exact ⟨s, hs, hr⟩
-    | updatePrimary _ => exact ⟨s, hs, hr⟩
-    | addPasskey _ => exact ⟨s, hs, hr⟩
-    | delPasskey _ => exact ⟨s, hs, hr⟩
-    | addAttested _ => exact ⟨s, hs, hr⟩
-    | delAttested _ => exact ⟨s, hs, hr⟩
-    | setOauth2Cred _ => exact ⟨s, hs, hr⟩
-    | touch => exact ⟨s, hs, hr⟩
-  obtain ⟨s1, hs1, hr1⟩ := h1
-  refine ⟨s1, ?_, hr1⟩
-  simp only [step]
-  rw [plugin_o2s, lookup_mapVals, hs1]
-  simp [o2Post_of_revoked hr1]
+/-- **Revoked is absorbing.** Whatever a local write does — a fresh login, the credential coming
+back under its old id, a replayed session record while the revocation is still on record, time
+passing, the trim — everything under a dead session id is still revoked afterwards.  The only
+way back is to record the id again after the trim has dropped it (session ids are fresh uuids,
+recorded once, and the trim horizon is `CHANGELOG_MAX_AGE` = 7 days). -/
+theorem dead_stays_dead_write (e : Entry) (md : Mod) (ct cid k : Nat) (h : DeadUat e k)
+    (hnr : ∀ c x i, md = .record k c x i → ∃ s0, UatAt (trimEntry (trimCidOf cid) e) k s0) :
+    DeadUat (step e (.write md ct cid)) k := by
+  intro s' hs'
+  rcases uatAt_write_inv e md ct cid k s' hs' with ⟨s0, h0, _, rfl | hr⟩ | ⟨c, x, i, hmd, hno⟩
+  · exact h _ h0
+  · exact hr
+  · obtain ⟨s0, h0⟩ := hnr c x i hmd
+    exact absurd h0 (hno s0)
 
-/-- Revoked is absorbing under every continuation of local writes. -/
-theorem revoked_stays_revoked (ops : List Op) (hw : AllWrites ops) (e : Entry) (k c : Nat)
-    (m : SMap) (hm : e.uats = some m) (h : RevAt m k c) :
-    ∃ m', (run e ops).uats = some m' ∧ RevAt m' k c := by
-  induction ops generalizing e m with
-  | nil => exact ⟨m, hm, h⟩
+theorem o2_applyMod_inv {e : Entry} {k : Nat} {s1 : Sess} (cid : Nat) (md : Mod)
+    (h : (k, s1) ∈ (applyMod cid e md).o2s) :
+    (∃ s0, (k, s0) ∈ e.o2s ∧ (s1 = s0 ∨ s1 = revoke cid s0 ∨
+        ∃ p x i, md = .grant k p x i ∧ o2InsertReplaces (SState.cmp (stateOf x) s0.state) = true)) ∨
+    (∃ p x i, md = .grant k p x i ∧ ∀ s0, (k, s0) ∉ e.o2s) := by
+  cases md with
+  | grant o parent exp issued =>
+    simp only [applyMod] at h
+    unfold insertO2 at h
+    cases hl : lookup e.o2s o with
+    | none =>
+      rw [hl] at h
+      rcases List.mem_append.mp h with h1 | h1
+      · exact Or.inl ⟨s1, h1, Or.inl rfl⟩
+      · simp only [List.mem_singleton, Prod.mk.injEq] at h1
+        obtain ⟨rfl, rfl⟩ := h1
+        exact Or.inr ⟨parent, exp, issued, rfl, not_mem_of_lookup_none hl⟩
+    | some v =>
+      rw [hl] at h
+      obtain ⟨⟨a, s0⟩, hm0, he⟩ := List.mem_map.mp h
+      by_cases ha : a = o
+      · subst ha
+        by_cases hr : o2InsertReplaces (SState.cmp (stateOf exp) s0.state) = true
+        · simp only [hr, if_true, Prod.mk.injEq] at he
+          obtain ⟨rfl, rfl⟩ := he
+          exact Or.inl ⟨s0, hm0, Or.inr (Or.inr ⟨parent, exp, issued, rfl, hr⟩)⟩
+        · simp only [hr, if_true] at he
+          simp only [Bool.false_eq_true, if_false, Prod.mk.injEq] at he
+          obtain ⟨rfl, rfl⟩ := he
+          exact Or.inl ⟨s0, hm0, Or.inl rfl⟩
+      · simp only [ha, if_false, Prod.mk.injEq] at he
+        obtain ⟨rfl, rfl⟩ := he
+        exact Or.inl ⟨s0, hm0, Or.inl rfl⟩
+  | revokeO2 o =>
+    simp only [applyMod] at h
+    rw [revokeKey_eq] at h
+    obtain ⟨⟨a, s0⟩, hm0, he⟩ := List.mem_map.mp h
+    simp only [Prod.mk.injEq] at he
+    obtain ⟨rfl, rfl⟩ := he
+    refine Or.inl ⟨s0, hm0, ?_⟩
+    split
+    · right; left; rfl
+    · left; rfl
+  | record _ _ _ _ => exact Or.inl ⟨s1, h, Or.inl rfl⟩
+  | revoke _ => exact Or.inl ⟨s1, h, Or.inl rfl⟩
+  | purgeUats => exact Or.inl ⟨s1, h, Or.inl rfl⟩
+  | setPrimary _ => exact Or.inl ⟨s1, h, Or.inl rfl⟩
+  | updatePrimary _ => exact Or.inl ⟨s1, h, Or.inl rfl⟩
+  | addPasskey _ => exact Or.inl ⟨s1, h, Or.inl rfl⟩
+  | delPasskey _ => exact Or.inl ⟨s1, h, Or.inl rfl⟩
+  | addAttested _ => exact Or.inl ⟨s1, h, Or.inl rfl⟩
+  | delAttested _ => exact Or.inl ⟨s1, h, Or.inl rfl⟩
+  | setOauth2Cred _ => exact Or.inl ⟨s1, h, Or.inl rfl⟩
+  | touch => exact Or.inl ⟨s1, h, Or.inl rfl⟩
+
+/-- The same for a revoked OAuth2 session: a refresh re-inserting the session id cannot un-revoke
+it (`RevokedAt` is the greatest state of the regenerated order), nor can anything else. -/
+theorem dead_oauth2_stays_dead_write (e : Entry) (md : Mod) (ct cid k : Nat) (h : DeadO2 e k)
+    (hng : ∀ p x i, md = .grant k p x i → ∃ s0, (k, s0) ∈ (trimEntry (trimCidOf cid) e).o2s) :
+    DeadO2 (step e (.write md ct cid)) k := by
+  intro s' hs'
+  simp only [step, stepCore] at hs'
+  rw [plugin_o2s] at hs'
+  obtain ⟨s1, hm1, rfl⟩ := mem_mapVals hs'
+  have hdead : ∀ s0, (k, s0) ∈ (trimEntry (trimCidOf cid) e).o2s → ∃ c, s0.state = .revokedAt c := by
+    intro s0 h0
+    apply h s0
+    simp only [trimEntry, trimRevoked] at h0
+    exact (List.mem_filter.mp h0).1
+  rcases o2_applyMod_inv cid md hm1 with ⟨s0, h0, hs⟩ | ⟨p, x, i, hmd, hno⟩
+  · obtain ⟨c, hc⟩ := hdead s0 h0
+    rcases hs with rfl | rfl | ⟨p, x, i, _, hrep⟩
+    · exact ⟨c, by rw [o2Post_of_revoked hc]; exact hc⟩
+    · rw [revoke_of_revoked hc]; exact ⟨c, by rw [o2Post_of_revoked hc]; exact hc⟩
+    · exfalso
+      rw [hc] at hrep
+      cases x <;> simp [stateOf, SState.cmp, o2InsertReplaces] at hrep
+  · obtain ⟨s0, h0⟩ := hng p x i hmd
+    exact absurd h0 (hno s0)
+
+/-- Every event of the history is a local write that does not record login session `k`. -/
+def WritesNotRecording (k : Nat) (ops : List Op) : Prop :=
+  ∀ op ∈ ops, ∃ md ct cid, op = .write md ct cid ∧ ∀ c x i, md ≠ .record k c x i
+
+/-- Dead is absorbing under every continuation of local writes that does not record `k` anew. -/
+theorem dead_stays_dead (ops : List Op) (k : Nat) (hw : WritesNotRecording k ops) (e : Entry)
+    (h : DeadUat e k) : DeadUat (run e ops) k := by
+  induction ops generalizing e with
+  | nil => exact h
   | cons op tl ih =>
-    obtain ⟨md, ct, cid, rfl⟩ := hw _ (List.mem_cons_self ..)
-    obtain ⟨m1, hm1, h1⟩ := revoked_stays_revoked_write e md ct cid k c m hm h
-    exact ih (fun o ho => hw o (List.mem_cons_of_mem _ ho)) _ m1 hm1 h1
+    obtain ⟨md, ct, cid, rfl, hne⟩ := hw _ (List.mem_cons_self ..)
+    exact ih (fun o ho => hw o (List.mem_cons_of_mem _ ho)) _
+      (dead_stays_dead_write e md ct cid k h (fun c x i hmd => absurd hmd (hne c x i)))
 
-/-- **End to end.** Take any entry, any recorded login session `k` issued with credential `c`,
-and any write that leaves the account without `c`.  Then in the state that write commits, and
-after every continuation of local writes (time passing, new logins, the credential coming back,
-replayed session records, refreshes …): the session is revoked, and an OAuth2 token whose parent
-is `k` is refused whenever its OAuth2 session is on record, and in any case once five minutes
-have passed since the token's issue. -/
+/-- **End to end.** Take any entry, a login-session id `k` under which everything was issued
+with credential `c`, and any write (not recording `k`) that leaves the account without `c`.
+Then in the state that write commits and after every continuation of local writes not recording
+`k` (time passing, new logins, the credential coming back, refreshes, trims …): whatever is still
+on record under `k` is revoked, and an OAuth2 token naming `k` as its parent is accepted only
+inside five minutes of its own issue (or if `k` is an api token of the account). -/
 theorem removed_credential_never_usable_again (e : Entry) (md : Mod) (ct cid c k : Nat)
-    (m : SMap) (s : Sess) (hm : e.uats = some m) (hn : KeysNodup m) (hs : lookup m k = some s)
-    (hc : credOf s = c) (hgone : ¬ HasCred (applyMod cid e md) c)
-    (ops : List Op) (hw : AllWrites ops) :
+    (hall : ∀ s, UatAt e k s → credOf s = c) (hmd : ∀ c' x i, md ≠ .record k c' x i)
+    (hgone : ¬ HasCred (applyMod cid e md) c) (ops : List Op) (hw : WritesNotRecording k ops) :
     let e' := run (step e (.write md ct cid)) ops
-    (∃ m' c', e'.uats = some m' ∧ RevAt m' k c') ∧
+    DeadUat e' k ∧
     (∀ sid iat ct', o2Check e' sid (some k) iat ct' = true →
-        lookup e'.o2s sid = none ∧ ct' < iat * 1000000000 + fiveMinutes) := by
+        k ∈ e'.apis ∨ ct' < iat * 1000000000 + fiveMinutes) := by
   intro e'
-  -- the session right after the removing write
-  have hrev : ∃ m1 c1, (step e (.write md ct cid)).uats = some m1 ∧ RevAt m1 k c1 := by
-    obtain ⟨s', ⟨m1, hm1, hmem1⟩, hcred, _⟩ :=
-      write_keeps_every_session e md ct cid k s ⟨m, hm, mem_of_lookup hs⟩
-    obtain ⟨c1, hc1⟩ := removed_credential_revokes_in_same_change e md ct cid c hgone k s'
-      ⟨m1, hm1, hmem1⟩ (hcred.trans hc)
-    -- keys stay distinct through a write, so membership is lookup
-    refine ⟨m1, c1, hm1, s', ?_, hc1⟩
-    have hk1 : KeysNodup m1 := by
-      have hk0 : ∀ m0, (applyMod cid e md).uats = some m0 → KeysNodup m0 := by
-        intro m0 h0
-        cases md with
-        | record s2 cred exp issued =>
-          simp only [applyMod, hm, Option.getD_some, Option.some.injEq] at h0
-          subst h0
-          unfold insertVacant
-          cases hl : lookup m s2 with
-          | some _ => exact hn
-          | none =>
-            unfold KeysNodup
-            simp only [List.map_append, List.map_cons, List.map_nil]
-            refine List.nodup_append.mpr ⟨hn, by simp, ?_⟩
-            intro a ha b hb
-            simp only [List.mem_singleton] at hb
-            subst hb
-            intro hab; subst hab
-            obtain ⟨⟨a', v⟩, hv, rfl⟩ := List.mem_map.mp ha
-            rw [lookup_of_mem hn hv] at hl; cases hl
-        | revoke s2 =>
-          simp only [applyMod, hm, Option.map_some, Option.some.injEq] at h0
-          subst h0
-          have hn' : (m.map (·.1)).Nodup := hn
-          unfold KeysNodup
-          rw [revokeKey_eq]
-          simpa [List.map_map, Function.comp_def] using hn'
-        | purgeUats =>
-          simp only [applyMod, hm, Option.map_some, Option.some.injEq] at h0
-          subst h0
-          have hn' : (m.map (·.1)).Nodup := hn
-          unfold KeysNodup revokeAll
-          simpa [List.map_map, Function.comp_def] using hn'
-        | setPrimary _ => simp only [applyMod, hm, Option.some.injEq] at h0; exact h0 ▸ hn
-        | updatePrimary _ => simp only [applyMod, hm, Option.some.injEq] at h0; exact h0 ▸ hn
-        | addPasskey _ => simp only [applyMod, hm, Option.some.injEq] at h0; exact h0 ▸ hn
-        | delPasskey _ => simp only [applyMod, hm, Option.some.injEq] at h0; exact h0 ▸ hn
-        | addAttested _ => simp only [applyMod, hm, Option.some.injEq] at h0; exact h0 ▸ hn
-        | delAttested _ => simp only [applyMod, hm, Option.some.injEq] at h0; exact h0 ▸ hn
-        | setOauth2Cred _ => simp only [applyMod, hm, Option.some.injEq] at h0; exact h0 ▸ hn
-        | grant _ _ _ _ => simp only [applyMod, hm, Option.some.injEq] at h0; exact h0 ▸ hn
-        | revokeO2 _ => simp only [applyMod, hm, Option.some.injEq] at h0; exact h0 ▸ hn
-        | touch => simp only [applyMod, hm, Option.some.injEq] at h0; exact h0 ▸ hn
-      simp only [step, plugin_uats] at hm1
-      cases hu : (applyMod cid e md).uats with
-      | none => rw [hu] at hm1; cases hm1
-      | some m0 =>
-        rw [hu] at hm1
-        simp only [Option.map_some, Option.some.injEq] at hm1
-        subst hm1
-        unfold KeysNodup
-        rw [keys_mapVals]
-        exact hk0 m0 hu
-    exact lookup_of_mem hk1 hmem1
-  obtain ⟨m1, c1, hm1, hr1⟩ := hrev
-  obtain ⟨m2, hm2, hr2⟩ := revoked_stays_revoked ops hw _ k c1 m1 hm1 hr1
-  refine ⟨⟨m2, c1, hm2, hr2⟩, ?_⟩
+  have h1 : DeadUat (step e (.write md ct cid)) k := by
+    intro s' hs'
+    rcases uatAt_write_inv e md ct cid k s' hs' with ⟨s0, h0, hcred, _⟩ | ⟨c', x, i, hrec, _⟩
+    · exact removed_credential_revokes_in_same_change e md ct cid c hgone k s' hs'
+        (hcred.trans (hall s0 h0))
+    · exact absurd hrec (hmd c' x i)
+  have h2 : DeadUat e' k := dead_stays_dead ops k hw _ h1
+  refine ⟨h2, ?_⟩
   intro sid iat ct' hchk
-  obtain ⟨u0, hu0, hur0⟩ := hr2
-  obtain ⟨_, ⟨o, _, _, hp⟩ | hmiss⟩ := (o2Check_true_iff e' sid (some k) iat ct').mp hchk
-  · rcases hp k rfl with ⟨u, hu, hl⟩ | ⟨hu, _⟩
-    · have : e'.uats = some m2 := hm2
-      simp [this, hu0] at hu; subst hu; simp [LiveAt, Live, hur0, isRevoked] at hl
-    · have : e'.uats = some m2 := hm2
-      simp [this, hu0] at hu
-  · exact hmiss
+  obtain ⟨_, ⟨o, _, _, hp⟩ | ⟨_, hg⟩⟩ := (o2Check_true_iff e' sid (some k) iat ct').mp hchk
+  · rcases hp k rfl with ⟨u, hu, hl⟩ | ⟨_, ha | hg⟩
+    · exfalso
+      cases hm : e'.uats with
+      | none => simp [hm] at hu
+      | some m =>
+        simp only [hm, Option.bind_some] at hu
+        obtain ⟨c0, hc0⟩ := h2 u ⟨m, hm, mem_of_lookup hu⟩
+        simp [LiveAt, Live, hc0, isRevoked] at hl
+    · exact Or.inl ha
+    · exact Or.inr hg
+  · exact Or.inr hg
 
 /-! ## 4. Replication: a revocation survives the merge; the plugin does not run on it -/
 
@@ -663,6 +791,24 @@ example :
     o2Check e 202 (some 109) 0 300000000000 = false ∧
     o2Check e 201 (some 101) 0 300000000000 = true ∧
     o2Check demo 200 (some 100) 0 300000000000 = true := by decide
+
+/-- The trim every write starts with: a write 700 000 s (> 7 days) later drops the revocation of
+session 102 (stamped 3) — and sweeps the by then expired session 100; one at 600 000 s keeps it. -/
+example :
+    (step demo (.write .touch 700000000000000 700000000000000)).uats =
+      some [(100, ⟨.revokedAt 700000000000000, 1000, 51⟩), (101, ⟨.neverExpires, 1000, 61⟩)] ∧
+    (step demo (.write .touch 600000000000000 600000000000000)).uats =
+      some [(100, ⟨.revokedAt 600000000000000, 1000, 51⟩), (101, ⟨.neverExpires, 1000, 61⟩),
+            (102, ⟨.revokedAt 3, 900, 51⟩)] ∧
+    DeadUat (step demo (.write .touch 700000000000000 700000000000000)) 102 := by
+  refine ⟨by decide, by decide, ?_⟩
+  intro s ⟨m, hm, hmem⟩
+  have : m = [(100, ⟨.revokedAt 700000000000000, 1000, 51⟩), (101, ⟨.neverExpires, 1000, 61⟩)] := by
+    have h : (step demo (.write .touch 700000000000000 700000000000000)).uats =
+      some [(100, ⟨.revokedAt 700000000000000, 1000, 51⟩), (101, ⟨.neverExpires, 1000, 61⟩)] := by decide
+    rw [h] at hm; exact (Option.some.inj hm).symm
+  subst this
+  simp at hmem
 
 /-- An account without any login-session attribute: a parentless OAuth2 session is swept as an
 orphan once the grace window has passed (`.unwrap_or(false)`) — more than the property asks. -/
